@@ -99,6 +99,14 @@ ResTypeCopy(objs, op) ==
     {[post |-> Append(objs, [impl |-> "type", tname |-> e.tname, fields |-> e.fields, id |-> "", vals |-> <<>>]),
       ret |-> "ok"]}
 
+\* a type derived from the object's type (a copy given another name) creates a resource after the
+\* original type has created one: the new resource is of the derived type, zero-valued
+ResDerivedNew(objs, op) ==
+    LET e == objs[op.h] IN
+    {[post |-> Append(objs, [impl |-> "soft", tname |-> e.tname \o "x", fields |-> e.fields, id |-> "",
+                             vals |-> ZeroVals(e.fields)]),
+      ret |-> "ok"]}
+
 \* editing the maps of the Type value obtained from GetType() (and undoing it): whatever it does to the
 \* object itself, it must not show in any other object (the driver reports "leak" otherwise)
 ResTypeEdit(objs, op) == {[post |-> objs, ret |-> "ok"]}
@@ -116,6 +124,7 @@ Res(objs, op) ==
       [] op.op = "AddField"    -> ResAddField(objs, op)
       [] op.op = "RemoveField" -> ResRemoveField(objs, op)
       [] op.op = "TypeCopy"    -> ResTypeCopy(objs, op)
+      [] op.op = "DerivedNew"  -> ResDerivedNew(objs, op)
 
 \* Which ops make sense on which entries (the driver only issues these)
 Enabled(objs, op) ==
@@ -131,6 +140,7 @@ Enabled(objs, op) ==
                           IF e.fields[op.f].kind = "rel" THEN ~e.fields[op.f].to1 /\ Len(e.vals[op.f].ids) > 0
                           ELSE e.vals[op.f].r > 0 /\ op.v.r > 0)
               [] op.op \in {"SetID", "Copy", "NewLike", "Marshal", "TypeCopy", "TypeEdit"} -> IsRes(e)
+              [] op.op = "DerivedNew" -> IsRes(e) /\ e.impl = "soft"
               [] op.op \in {"AddField", "RemoveField"} -> e.impl \in {"soft", "type"}
               [] OTHER -> FALSE
 
